@@ -233,3 +233,208 @@ def exp_accepts(formulas, sel, known):
         if all(eval_formula(f, env) for f in formulas):
             return True
     return False
+
+
+# ====================================================================== Clafer subset
+_NAME = r'"[^"]*"|[^\s\[\]()?:"]+'
+_CLAFER_LINE = re.compile(rf'^(?:(xor|or|mux|\d+\.\.(?:\d+|\*))\s+)?({_NAME})(\s*:\s*({_NAME}))?(\s*\?)?\s*$')
+_ATTR_LINE = re.compile(rf'^\[\s*({_NAME})\s*=\s*(.*)\]\s*$')
+_CTOK = re.compile(rf'\s*(<=>|=>|&&|\|\||!|\(|\)|{_NAME})')
+CL_PREC = {"<=>": 1, "=>": 2, "||": 3, "xor": 4, "&&": 5}
+
+
+class Clafer:
+    def __init__(self, spelling, group, optional, super_):
+        self.spelling, self.group, self.optional, self.super_ = spelling, group, optional, super_
+        self.name = spelling[1:-1] if spelling.startswith('"') else spelling
+        self.children, self.attrs = [], []
+
+
+def parse_clafer(text):
+    """-> dict(root=Clafer, attr_decls=[spelling], constraints=[expr], instance=(name, type), problems=[...])"""
+    lines = text.split("\n")
+    attr_decls, constraints, problems = [], [], []
+    root = None
+    instance = None
+    stack = []
+    mode = None
+    for raw in lines:
+        if not raw.strip():
+            continue
+        body = raw.lstrip("\t")
+        depth = len(raw) - len(body)
+        if depth == 0 and body.startswith("abstract "):
+            rest = body[len("abstract "):].strip()
+            if rest == "AttributedFeature":
+                mode = "attrdecl"
+                continue
+            m = _CLAFER_LINE.match(rest)
+            if not m:
+                raise ParseError(f"bad abstract clafer line {raw!r}")
+            if root is not None:
+                raise ParseError("two abstract feature hierarchies")
+            root = Clafer(m.group(2), m.group(1), False, m.group(4))
+            stack = [(0, root)]
+            mode = "tree"
+            continue
+        if depth == 0 and body.startswith("["):
+            constraints.append(parse_clafer_expr(body.strip()[1:-1]) if body.strip().endswith("]") else None)
+            if constraints[-1] is None:
+                raise ParseError(f"bad constraint line {raw!r}")
+            mode = "top"
+            continue
+        if depth == 0:
+            m = re.match(rf'^({_NAME})\s*:\s*({_NAME})\s*$', body)
+            if not m:
+                raise ParseError(f"unexpected top-level line {raw!r}")
+            instance = (m.group(1), m.group(2))
+            mode = "top"
+            continue
+        if mode == "attrdecl":
+            m = re.match(r'^(.*?)\s*->\s*(\w*)\s*$', body)
+            if not m:
+                raise ParseError(f"bad attribute declaration {raw!r}")
+            attr_decls.append((m.group(1), m.group(2)))
+            continue
+        if mode != "tree":
+            raise ParseError(f"indented line outside a clafer {raw!r}")
+        while stack and stack[-1][0] >= depth:
+            stack.pop()
+        if not stack:
+            raise ParseError(f"line without parent {raw!r}")
+        parent = stack[-1][1]
+        a = _ATTR_LINE.match(body)
+        if a:
+            parent.attrs.append((a.group(1), a.group(2).strip()))
+            continue
+        m = _CLAFER_LINE.match(body)
+        if not m:
+            raise ParseError(f"bad clafer line {raw!r}")
+        node = Clafer(m.group(2), m.group(1), bool(m.group(5)), m.group(4))
+        parent.children.append(node)
+        stack.append((depth, node))
+    if root is None:
+        raise ParseError("no abstract feature hierarchy")
+    return {"root": root, "attr_decls": attr_decls, "constraints": constraints, "instance": instance, "problems": problems}
+
+
+def parse_clafer_expr(s):
+    tokens, pos = [], 0
+    while pos < len(s):
+        m = _CTOK.match(s, pos)
+        if not m:
+            if not s[pos:].strip():
+                break
+            raise ParseError(f"cannot tokenize constraint at {s[pos:]!r}")
+        tokens.append(m.group(1))
+        pos = m.end()
+    idx = [0]
+
+    def peek():
+        return tokens[idx[0]] if idx[0] < len(tokens) else None
+
+    def take():
+        t = peek()
+        idx[0] += 1
+        return t
+
+    def unary():
+        t = take()
+        if t is None:
+            raise ParseError("unexpected end of constraint")
+        if t in ("!", "not"):
+            return ("not", unary())
+        if t == "(":
+            e = binary(1)
+            if take() != ")":
+                raise ParseError("missing )")
+            return e
+        if t in CL_PREC or t == ")":
+            raise ParseError(f"unexpected {t!r} in constraint")
+        return ("var", t)
+
+    def binary(min_prec):
+        left = unary()
+        while True:
+            t = peek()
+            if t not in CL_PREC or CL_PREC[t] < min_prec:
+                return left
+            take()
+            right = binary(CL_PREC[t] if t == "=>" else CL_PREC[t] + 1)
+            left = (t, left, right)
+
+    e = binary(1)
+    if peek() is not None:
+        raise ParseError(f"trailing tokens in constraint: {tokens[idx[0]:]!r}")
+    return e
+
+
+def clafer_features(root):
+    out = []
+
+    def rec(n):
+        out.append(n)
+        for c in n.children:
+            rec(c)
+    rec(root)
+    return out
+
+
+def clafer_eval(e, env):
+    op = e[0]
+    if op == "var":
+        return env[e[1]]
+    if op == "not":
+        return not clafer_eval(e[1], env)
+    a, b = clafer_eval(e[1], env), clafer_eval(e[2], env)
+    return {"&&": a and b, "||": a or b, "xor": a != b, "=>": (not a) or b, "<=>": a == b}[op]
+
+
+def clafer_vars(e, acc):
+    if e[0] == "var":
+        acc.add(e[1])
+    else:
+        for s in e[1:]:
+            clafer_vars(s, acc)
+    return acc
+
+
+def clafer_accepts(doc, sel):
+    """sel: set of feature names (unquoted).  Clafer semantics of the emitted subset."""
+    root = doc["root"]
+    if root.name not in sel:
+        return False
+
+    def ok(node):
+        me = node.name in sel
+        k = sum(1 for c in node.children if c.name in sel)
+        if not me and k:
+            return False
+        if me:
+            if node.group is None:
+                for c in node.children:
+                    if not c.optional and c.name not in sel:
+                        return False
+            else:
+                n = len(node.children)
+                if node.group == "xor":
+                    lo, hi = 1, 1
+                elif node.group == "or":
+                    lo, hi = 1, n
+                elif node.group == "mux":
+                    lo, hi = 0, 1
+                else:
+                    a, b = node.group.split("..")
+                    lo, hi = int(a), (n if b == "*" else int(b))
+                if not lo <= k <= hi:
+                    return False
+        return all(ok(c) for c in node.children)
+
+    if not ok(root):
+        return False
+    spell = {f.spelling: f.name for f in clafer_features(root)}
+    env = {sp: (nm in sel) for sp, nm in spell.items()}
+    for e in doc["constraints"]:
+        if not clafer_eval(e, env):      # KeyError for undeclared spellings is handled by the caller
+            return False
+    return True
